@@ -26,8 +26,8 @@ import (
 // With the tag off every hook below is dead code.
 const simEnabled = false
 
-func simActive() bool                                                       { return false }
-func simHostReady(h host.Host)                                              {}
-func simPushLog(s *server, evt event.Update, pid peer.ID) error            { return nil }
+func simActive() bool                                                                 { return false }
+func simHostReady(h host.Host)                                                        {}
+func simPushLog(s *server, evt event.Update, pid peer.ID) error                       { return nil }
 func simBlockService(p *Peer, bs blockservice.BlockService) blockservice.BlockService { return bs }
-func simPublish(ctx context.Context, s *server, topic string, data []byte) error { return nil }
+func simPublish(ctx context.Context, s *server, topic string, data []byte) error      { return nil }
